@@ -71,6 +71,7 @@ type bridgeGen struct {
 	deps    []*depInfo
 	wtxs    []*wdTx
 	cbDep   *depInfo // a deposit placed in a coinbase transaction
+	orphan  *depInfo // the deposit of the registration that was undone in the previous block: presented again, alone
 	netName string
 	mode    string
 	clean   bool // no execution-layer request that makes the block message fail
@@ -701,6 +702,15 @@ func (g *bridgeGen) plan(mode string) (*BlockPlan, error) {
 		return nil
 	}
 	votedUsed := false // at most one genuine voted message per block (the sequence advances)
+	if g.orphan != nil { // the deposit for the key whose registration was undone a block ago, now on its own
+		d := g.orphan
+		g.orphan = nil
+		dep, hdr, f := g.depositItem(d, "none")
+		dm := &bitcointypes.MsgNewDeposits{Proposer: s.member(vc.Proposer).Bech, Deposits: []*bitcointypes.Deposit{dep}, BlockHeaders: []*bitcointypes.BlockHeader{hdr}}
+		if err := add(dm, "deposits", Ev{"wf": true, "deps": []Ev{f}}); err != nil {
+			return nil, err
+		}
+	}
 	ntx := r.Intn(5)
 	nearCb := mode == "deep" && g.cbDep != nil && !g.cbDep.credited && int64(g.cbDep.blk)+95 <= st.Tip && st.Tip <= int64(g.cbDep.blk)+102
 	if nearCb && ntx < 2 {
@@ -959,7 +969,7 @@ func (g *bridgeGen) plan(mode string) (*BlockPlan, error) {
 	// key's script, and then fails in its third message. Nothing of it may remain: the key is not a relayer key, the deposit is
 	// not credited - and stays refused when it is presented again later (it is in g.deps)
 	forceMerge := 0
-	if !votedUsed && rare(3) {
+	if !votedUsed && rare(5) {
 		reg := map[string]bool{}
 		for _, k := range st.Pubkeys {
 			reg[k] = true
@@ -982,6 +992,7 @@ func (g *bridgeGen) plan(mode string) (*BlockPlan, error) {
 					return nil, err
 				}
 				forceMerge = 3
+				g.orphan = d
 				break
 			}
 		}
